@@ -77,6 +77,20 @@
       case a [prop_conforms] failure can only appear together with a failing correspondence tag;
       [corr_conforms_agree] is kept.
 
+      UPDATE 4 (specification strengthened): the array REPEAT form [[ e ; <n>usize ]] used to be accepted
+      for ANY element type by the relation, by [conforms_irb] and by the token-level reader.  In Rust
+      a repeat expression with n >= 2 is a value of [[T; n]] only if [T : Copy]; a seeded bug that made
+      [(String, u32)] count as copy printed [[("Fizz".into(), 3u32,); 3usize]] and was seen only by the
+      model/implementation comparison [corr_example], not by [prop_conforms].  Now all three demand
+      [n <= 1 \/ copy_ty .. elem = true] for the repeat form, where [Model.Conforms.copy_ty] is a predicate
+      on the REGISTRY alone (primitive other than str; array of ANY length / tuple / compact of copy;
+      composite, variant, sequence, bit sequence: no), independent of the implementation's heuristic.
+      NO pinned statement above changed textually ([conforms] is referenced by name; all were
+      re-proved: [C14_conforms] via [C14_model_copy_is_copy]).  New at the end of this file:
+      [C14_model_copy_is_copy], [C14_repeat_needs_copy], [C14_repeat_needs_copy_tokens],
+      [C14_repeat_examples], [C14_copy_tyb_iff], [C14_copy_ty_fuel], [C14_reader_repeat_needs_copy],
+      [C14_reader_refuses_repeat].
+
     Determinism: [example_rust] is a Gallina function of (r, s, id, ws). *)
 From Coq Require Import List NArith ZArith String.
 From V Require Import Base.Result Model.Registry Model.Settings Model.RngWords Model.Generate Model.Equal
@@ -85,6 +99,7 @@ From V Require Import Base.Result Model.Registry Model.Settings Model.RngWords M
   Proofs.ConformsExamples.
 (* [Require] without [Import]: the names of the pinned statements above keep their meaning; the
    statements added at the end of this file use qualified names *)
+From V Require Proofs.CopyTy Proofs.ConformsRepeat.
 From V Require Model.Emit Checkers.Parse Model.Unparse Corr.RunTG Corr.RunC14
   Proofs.ConformsTokens Proofs.ConformsTokensExamples Proofs.ConformsCase.
 Import ListNotations.
@@ -210,8 +225,9 @@ Print Assumptions C14_total_hypotheses_satisfiable.
     - [Cow<T>]: an instance of [T]; compact entries: an instance of the inner type;
     - literals: [<n>u8 .. u128] with [n < 2^bits]; signed [- <n>iN] / [<n>iN] in range; [true] /
       [false]; ['c']; ["..." . into ( )]; 256-bit integers as 32 [u8] literals in brackets;
-    - tuples [( e1 , .. , en , )] of exactly the tuple's arity (1-tuple [( e , )]); arrays
-      [[ e ; <len>usize ]] or exactly [len] comma-separated elements; [vec ! [ e , .. ]] of any length;
+    - tuples [( e1 , .. , en , )] of exactly the tuple's arity (1-tuple [( e , )]); arrays:
+      exactly [len] comma-separated elements, or [[ e ; <len>usize ]] PROVIDED [len <= 1] or the
+      element type is [Copy] ([copy_tyb], see the end of this file); [vec ! [ e , .. ]] of any length;
     - [Compact ( e )] exactly around fields whose recorded type name starts with "Compact<".
 
     Quantifier: EVERY registry, settings, [types_equal] oracle, id and word list such that the
@@ -465,3 +481,123 @@ Theorem C14_prop_conforms_of_corr_nonvacuous :
     RunC14.hyp_ok c = true /\ RunC14.hyp_marker c = true /\ RunC14.prop_conforms c = true.
 Proof. exists ConformsCase.demo_case. exact (proj2 ConformsCase.demo_case_in_scope). Qed.
 Print Assumptions C14_prop_conforms_of_corr_nonvacuous.
+
+(** ** the array repeat form and [Copy].
+
+    [Model.Conforms.copy_ty r fuel id] ("the type generated for [id] is [Copy]"; a Fixpoint on the
+    registry, independent of the implementation): a primitive other than [str]; an array -- of ANY
+    length -- of a copy type; a tuple of copy types; a Compact entry of a copy type; Composite /
+    Variant / Sequence / BitSequence: [false] (generated structs / enums do not derive [Copy] by
+    default; user-configured derives are ignored, which is conservative: the explicit list is always
+    a value).  Out of fuel = [false]; [copy_tyb r id = copy_ty r (S (length r)) id].
+    The constructor [c_array_repeat] of [conforms] carries the side condition
+    [repeat_ok r len e := len <= 1 \/ copy_tyb r e = true]; the explicit-list constructor is unchanged.
+
+    The model's [is_copy] (= the implementation's [type_def_is_copy]: additionally arrays longer than
+    32 are not copy) implies [copy_ty] with the SAME fuel, in particular with the fuel the model uses
+    ([copy_fuel r] = number of entries + 1 = the fuel of [copy_tyb]).  This is the step that
+    re-establishes [C14_conforms]. *)
+Theorem C14_model_copy_is_copy :
+  forall (r : registry) (fuel : nat) (id : N) (t : ty) (st st' : ExampleRust.st),
+    lookup r id = Some t -> is_copy r fuel (t_def t) st = XOk (true, st') -> copy_ty r fuel id = true.
+Proof. exact is_copy_copy_ty. Qed.
+Print Assumptions C14_model_copy_is_copy.
+
+Theorem C14_model_copy_is_copyb :
+  forall (r : registry) (id : N) (t : ty) (st st' : ExampleRust.st),
+    lookup r id = Some t -> is_copy r (copy_fuel r) (t_def t) st = XOk (true, st') -> copy_tyb r id = true.
+Proof. exact model_copy_is_copy. Qed.
+Print Assumptions C14_model_copy_is_copyb.
+
+(** an instance of an array entry with >= 2 elements of a non-[Copy] type is NEVER the repeat form:
+    every derivation ends with the explicit-list constructor, i.e. the tokens are [[ ts' ]] with
+    [ts'] = exactly [len] comma-separated instances of the element type *)
+Theorem C14_repeat_needs_copy :
+  forall (r : registry) (s : settings) (m : items) (id : N) (t : ty) (len e : N) (ts rest : tokens),
+    conforms r s m id ts rest ->
+    lookup r id = Some t -> t_def t = TDArray len e -> (2 <= len)%N -> copy_tyb r e = false ->
+    exists ts' : tokens,
+      ts = "["%string :: ts' /\ conf_sep (conforms r s m) e len ts' ("]"%string :: rest).
+Proof. exact repeat_needs_copy. Qed.
+Print Assumptions C14_repeat_needs_copy.
+
+(** token shape: after the opening bracket comes an instance of the element type followed by a COMMA
+    (not by [; <len>usize ]]) and [len - 1] further comma-separated instances up to the bracket *)
+Theorem C14_repeat_needs_copy_tokens :
+  forall (r : registry) (s : settings) (m : items) (id : N) (t : ty) (len e : N) (ts rest : tokens),
+    conforms r s m id ts rest ->
+    lookup r id = Some t -> t_def t = TDArray len e -> (2 <= len)%N -> copy_tyb r e = false ->
+    exists ts' mid : tokens,
+      ts = "["%string :: ts' /\ conforms r s m e ts' (","%string :: mid) /\
+      conf_sep (conforms r s m) e (N.pred len) mid ("]"%string :: rest).
+Proof. exact repeat_needs_copy_tokens. Qed.
+Print Assumptions C14_repeat_needs_copy_tokens.
+
+(** evaluated ([vm_compute]) on the registry
+      0: str  1: u32  2: (0, 1)  3: [2; 3]  4: u8  5: (4, 1)  6: [5; 3]  (7: [2; 1]  8: [4; 40]  9: [8; 2])
+    ([ConformsTokensExamples.rpt_reg]; no struct / enum, hence no module and no paths):
+    the token-level reader [conformsb] and the model-side reader [conforms_irb] REFUSE
+    [[ ( "a" . into ( ) , 1u32 , ) ; 3usize ]] for [[(String, u32); 3]] and accept the explicit list of
+    three; they accept [[ ( 1u8 , 2u32 , ) ; 3usize ]] for [[(u8, u32); 3]].  The refused token list is
+    not an instance (proved by inversion), the accepted ones are. *)
+Theorem C14_repeat_examples :
+  let r : registry :=
+    [ (0, mk_ty [] [] (TDPrimitive PStr) []); (1, mk_ty [] [] (TDPrimitive PU32) []);
+      (2, mk_ty [] [] (TDTuple [0; 1]) []); (3, mk_ty [] [] (TDArray 3 2) []);
+      (4, mk_ty [] [] (TDPrimitive PU8) []); (5, mk_ty [] [] (TDTuple [4; 1]) []);
+      (6, mk_ty [] [] (TDArray 3 5) []); (7, mk_ty [] [] (TDArray 1 2) []);
+      (8, mk_ty [] [] (TDArray 40 4) []); (9, mk_ty [] [] (TDArray 2 8) []) ]%N in
+  let a : tokens := ["("; """a"""; "."; "into"; "("; ")"; ","; "1u32"; ","; ")"]%string in
+  let b : tokens := ["("; "1u8"; ","; "2u32"; ","; ")"]%string in
+  let rep (x : tokens) : tokens := ("["%string :: x ++ [";"; "3usize"; "]"]%string)%list in
+  let lst (x : tokens) : tokens := ("["%string :: x ++ ","%string :: x ++ ","%string :: x ++ ["]"%string])%list in
+  let reads := RunC14.conformsb r "types"%string None [] in
+  let accepts := conforms_irb r ExampleRustProofs.demo_settings [] in
+  copy_tyb r 2 = false /\ copy_tyb r 5 = true /\
+  reads 3%N (rep a) = false /\ reads 3%N (lst a) = true /\ reads 6%N (rep b) = true /\
+  accepts 3%N (rep a) = false /\ accepts 3%N (lst a) = true /\ accepts 6%N (rep b) = true /\
+  ~ conforms r ExampleRustProofs.demo_settings [] 3 (rep a) [] /\
+  conforms r ExampleRustProofs.demo_settings [] 3 (lst a) [] /\
+  conforms r ExampleRustProofs.demo_settings [] 6 (rep b) [].
+Proof. exact ConformsTokensExamples.repeat_examples. Qed.
+Print Assumptions C14_repeat_examples.
+
+(** ** [copy_tyb] against its fuel-free reading.  [CopyTy.copy_type r id] (Proofs/CopyTy.v, an
+    inductive predicate): the entry [id] is a primitive other than [str] / an array (any length)
+    whose element is [copy_type] / a tuple all of whose members are / a Compact entry whose inner
+    type is; nothing else.  The boolean with the fuel "number of entries + 1" decides exactly this
+    predicate: out of fuel never refuses a type with a finite derivation, and whatever ANY fuel
+    accepts, the fuel of [copy_tyb] accepts. *)
+Theorem C14_copy_tyb_iff :
+  forall (r : registry) (id : N), copy_tyb r id = true <-> CopyTy.copy_type r id.
+Proof. exact CopyTy.copy_tyb_iff. Qed.
+Print Assumptions C14_copy_tyb_iff.
+
+Theorem C14_copy_ty_fuel :
+  forall (r : registry) (n : nat) (id : N), copy_ty r n id = true -> copy_tyb r id = true.
+Proof. exact CopyTy.copy_ty_fuel. Qed.
+Print Assumptions C14_copy_ty_fuel.
+
+(** ** the INDEPENDENT token reader refuses the repeat form for a non-[Copy] element type -- universally
+    (every registry, root, parsed module, path list, fuel; no scope hypothesis): whenever
+    [RunC14.conf] accepts a token list for an array entry with >= 2 elements whose element type is not
+    [copy_tyb], the list starts with [[], and the first element the reader reads is followed by a
+    COMMA; if the first element is followed by [;] the reader returns [None]. *)
+Theorem C14_reader_repeat_needs_copy :
+  forall (r : registry) (root : String.string) (pm : option Parse.pmod) (paths : list (RunTG.obs tokens))
+         (fuel : nat) (id : N) (t : ty) (len e : N) (ts rest : tokens),
+    lookup r id = Some t -> t_def t = TDArray len e -> (2 <= len)%N -> copy_tyb r e = false ->
+    RunC14.conf r root pm paths (S fuel) id ts = Some rest ->
+    exists ts1 r3 : tokens,
+      ts = "["%string :: ts1 /\ RunC14.conf r root pm paths fuel e ts1 = Some (","%string :: r3).
+Proof. exact ConformsRepeat.reader_repeat_needs_copy. Qed.
+Print Assumptions C14_reader_repeat_needs_copy.
+
+Theorem C14_reader_refuses_repeat :
+  forall (r : registry) (root : String.string) (pm : option Parse.pmod) (paths : list (RunTG.obs tokens))
+         (fuel : nat) (id : N) (t : ty) (len e : N) (ts1 x : tokens),
+    lookup r id = Some t -> t_def t = TDArray len e -> (2 <= len)%N -> copy_tyb r e = false ->
+    RunC14.conf r root pm paths fuel e ts1 = Some (";"%string :: x) ->
+    RunC14.conf r root pm paths (S fuel) id ("["%string :: ts1) = None.
+Proof. exact ConformsRepeat.reader_refuses_repeat. Qed.
+Print Assumptions C14_reader_refuses_repeat.
